@@ -223,17 +223,34 @@ inline QJsonObject readCaseFile(const char *path)
 // Time budget: the driver passes VERIF_DEADLINE_S (seconds of wall time this process may use). When it is used up the
 // harness writes the statistics of what it explored so far and exits 0 ("held on everything explored"); a budget that
 // runs out is never a violation and never a harness error.
+inline long rssMb()
+{
+    long pages = 0, dummy = 0;
+    if (FILE *f = fopen("/proc/self/statm", "r")) {
+        if (fscanf(f, "%ld %ld", &dummy, &pages) != 2) pages = 0;
+        fclose(f);
+    }
+    return pages * (sysconf(_SC_PAGESIZE) / 1024) / 1024;
+}
+
 inline void startBudgetWatchdog()
 {
     const long budget = atol(envOr("VERIF_DEADLINE_S", "0"));
-    if (budget <= 0)
-        return;
-    std::thread([budget] {
-        std::this_thread::sleep_for(std::chrono::seconds(budget));
-        count("time_budget_exhausted");
-        dumpStats(true);
-        fprintf(stderr, "time budget of %ld s used up after %ld cases: stopping (inconclusive beyond that, not a failure)\n", budget, stats().evaluations);
-        _exit(0);
+    const long maxRss = atol(envOr("VERIF_MAX_RSS_MB", "3500")); // ASan's stack depot grows with every new allocation stack
+    std::thread([budget, maxRss] {
+        const auto t0 = std::chrono::steady_clock::now();
+        for (;;) {
+            std::this_thread::sleep_for(std::chrono::seconds(2));
+            const long el = long(std::chrono::duration_cast<std::chrono::seconds>(std::chrono::steady_clock::now() - t0).count());
+            const bool timeUp = budget > 0 && el >= budget;
+            const bool memUp = maxRss > 0 && rssMb() > maxRss;
+            if (!timeUp && !memUp) continue;
+            count(timeUp ? "time_budget_exhausted" : "memory_budget_exhausted");
+            dumpStats(true);
+            fprintf(stderr, "%s budget used up after %ld cases (%ld s, %ld MB): stopping (inconclusive beyond that, not a failure)\n",
+                    timeUp ? "time" : "memory", stats().evaluations, el, rssMb());
+            _exit(0);
+        }
     }).detach();
 }
 
